@@ -287,6 +287,19 @@ def parse_into_datetime(
     )
 
 
+def _timestamp_sort_key(value):
+    """
+    Get a key for comparing version timestamps ("modified"/"created").  They
+    are datetime objects in stix2 objects, but strings in plain dicts (e.g.
+    unregistered custom objects), where comparing the text would order
+    "...:00Z" after "...:00.5Z".  Compare as instants whenever possible.
+    """
+    try:
+        return parse_into_datetime(value)
+    except (TypeError, ValueError):
+        return value
+
+
 def _get_dict(data):
     """Return data as a dictionary.
 
